@@ -298,6 +298,7 @@ impl http_codec::PendingRequest for StreamSource {
     }
 }
 
+#[async_trait]
 impl http_codec::PendingRespond for StreamSink {
     fn id(&self) -> log_utils::IdChain<u64> {
         self.id.clone()
@@ -321,6 +322,10 @@ impl http_codec::PendingRespond for StreamSink {
                     format!("Failed to put response in queue: {}", e),
                 )
             })
+    }
+
+    async fn wait_interim_sent(&mut self) -> io::Result<()> {
+        pipe::Sink::wait_writable(self).await
     }
 
     fn send_response(
